@@ -211,7 +211,7 @@ def run(ctx):
     import unified_planning as up
     ok_proofs = ctx.check_props(extra=["theories/Corr/Corr_C08.v"])
     rng = ctx.rng
-    per = 16 if ctx.quick else 150
+    per = 12 if ctx.quick else 150
     stats = {"outcomes": {}, "documented_rejections": {}, "wf_checked": 0, "fresh_cases": 0, "ground_cases": 0,
              "ground_names_with_counter": 0, "back_conversion_checked": 0, "adversarial_problems": 0}
     # ---- 1. get_fresh_name
